@@ -13,14 +13,14 @@ RULE = ("EXHAUSTIVE: for rule in {OneOfMany, AtMostOne, AnyOfMany} x n in 1..5 s
         "newSwitchVector through the real Router), client writes naming 2 and 3 switches with every value combination, driver "
         ".value= / .bool_value= on every switch, selected_value= for every switch and selected_values= for every subset; every client write also with an injected fault (a Change handler "
         "raises, delivery to a client raises) and with a Write handler that prevents the default and then publishes the vector as Busy; On/Off in foreign spellings (ON, on, padded, 1, True) as client write and as "
-        "assignment (refusal is fine; what is stored or published must be a protocol value and satisfy the rule). After each "
+        "assignment (refusal is fine; what is stored or published must be a protocol value and satisfy the rule); the same graph for 2..3 switches with elements being hidden and shown again (Element.enabled) at run time. After each "
         "operation the state tuple and the children of every setSwitchVector published during it are judged against the rule "
         "invariants. non-trivial = every (node, operation) pair; distinct = hash(rule, n, node, operation)")
 ASSUMPTIONS = ["the exact successor of a multi-switch write is left open (only the invariants are demanded)",
                "bulk selection of several switches under OneOfMany/AtMostOne must keep the invariants and must not raise"]
 QUICK_SHARDS = 2
 REQUIRED_EVENTS = ["states", "transitions", "published_updates_judged", "client_writes", "driver_assignments", "bulk_selections",
-                   "client_writes_with_injected_fault", "client_writes_prevented_by_a_write_handler", "writes_in_a_foreign_spelling"]
+                   "client_writes_with_injected_fault", "client_writes_prevented_by_a_write_handler", "writes_in_a_foreign_spelling", "transitions_with_hidden_switches"]
 EXHAUSTIVE_NOTE = "the complete reachable state graph for every rule, 1..5 switches (thorough: 1..7) and every initial configuration, every operation on every node"
 SHARDED = True
 RULES = ["OneOfMany", "AtMostOne", "AnyOfMany"]
@@ -249,6 +249,79 @@ def explore(ctx, rule, n, init, explored=None):
     ctx.sample({"rule": rule, "switches": n, "initial": list(init), "states_explored_so_far": len(seen), "operations_per_state": len(ops)})
 
 
+def explore_hidden(ctx, rule, n):
+    """The same state graph with HIDDEN switches: elements are disabled and enabled again at run time (Element.enabled).  A hidden
+    switch is not listed in messages; whatever happens to it meanwhile, every message published and - whenever all switches
+    are visible again - the whole state must satisfy the rule."""
+    from indi import message as M
+    from indi.message import one_parts
+    from indi.routing import Router
+    spec = make_spec(rule, n, ["S0"] if rule == "AnyOfMany" else "S0")
+    router = Router()
+    drv = D.build(spec)(router=router)
+    rec = devmon.RecClient()
+    router.register_client(rec)
+    vec = D.vector_of(drv, "g", "sw")
+    els = [getattr(vec, f"s{i}") for i in range(n)]
+    ops = []
+    for i in range(n):
+        for val in ("On", "Off"):
+            ops += [("client", i, val), ("value", i, val)]
+        ops += [("hide", i), ("show", i)]
+    ops.append(("getProperties",))
+    start = (tuple(e._value == "On" for e in els), tuple(bool(e.enabled) for e in els))
+    seen = {start}
+    queue = [start]
+    while queue:
+        node = queue.pop(0)
+        ctx.count("states_with_hidden_switches")
+        for op in ops:
+            # install the node
+            for e, on_, en_ in zip(els, node[0], node[1]):
+                e.enabled = True
+            vec.reset_selected_values([f"S{i}" for i, b in enumerate(node[0]) if b])
+            for e, on_, en_ in zip(els, node[0], node[1]):
+                e._value = "On" if on_ else "Off"
+                e.enabled = en_
+            del rec.received[:]
+            case = {"mode": "hidden", "rule": rule, "n": n, "node": [list(node[0]), list(node[1])], "op": list(op)}
+            ctx.count("transitions")
+            ctx.count("transitions_with_hidden_switches")
+            ctx.case_fast(("hidden", rule, n, node, op))
+            try:
+                if op[0] == "client":
+                    router.process_message(M.NewSwitchVector(device="DEV", name="SW", children=(one_parts.OneSwitch(name=f"S{op[1]}", value=op[2]),)), sender=rec)
+                elif op[0] == "value":
+                    els[op[1]].value = op[2]
+                elif op[0] == "hide":
+                    els[op[1]].enabled = False
+                elif op[0] == "show":
+                    els[op[1]].enabled = True
+                else:
+                    router.process_message(M.GetProperties(version="1.7", device="DEV"), sender=rec)
+            except Exception as e:
+                ctx.violate(f"operation-raises:hidden-switches:{op[0]}:{type(e).__name__}", f"{op} in {node} raised {e!r}", case)
+                continue
+            post = (tuple(e._value == "On" for e in els), tuple(bool(e.enabled) for e in els))
+            for m in rec.received:
+                if type(m).__name__ not in ("SetSwitchVector", "DefSwitchVector"):
+                    continue
+                ctx.count("published_updates_judged")
+                on_names = [c.name for c in m.children if c.value == "On"]
+                if rule in ("OneOfMany", "AtMostOne") and len(on_names) > 1:
+                    ctx.violate(f"published:more-than-one-on:{rule}:hidden-switches:{op[0]}", f"{rule}: {op} in {node} published {on_names} On "
+                                f"({type(m).__name__})", case)
+                    break
+            if all(post[1]) and rule in ("OneOfMany", "AtMostOne") and sum(post[0]) > 1:
+                ctx.violate(f"state:more-than-one-on:{rule}:all-switches-visible-again:{op[0]}", f"{rule}: {op} took {node} to {post}", case)
+            if rule in ("OneOfMany", "AtMostOne") and sum(post[0]) > 1 and op[0] in ("client", "value"):
+                # keep exploring from it all the same: showing the hidden one is what makes it observable
+                pass
+            if post not in seen and len(seen) < 4000:
+                seen.add(post)
+                queue.append(post)
+
+
 def initial_configs(rule, n):
     if rule == "AnyOfMany":
         return [tuple(bool(m >> i & 1) for i in range(n)) for m in range(1 << n)]
@@ -257,6 +330,12 @@ def initial_configs(rule, n):
 
 
 def run(ctx):
+    j = 100
+    for rule in RULES:
+        for n in (2, 3) if not ctx.thorough else (2, 3, 4):
+            j += 1
+            if ctx.mine(j):
+                explore_hidden(ctx, rule, n)
     i = 0
     for rule in RULES:
         for n in range(1, 6 if not ctx.thorough else 8):
@@ -275,6 +354,9 @@ def exhaustive(ctx):
 
 
 def replay(ctx, case):
+    if case.get("mode") == "hidden":
+        explore_hidden(ctx, case["rule"], case["n"])
+        return
     from indi.routing import Router
     rule, n, init, node = case["rule"], case["n"], case["init"], case.get("node")
     if node is None:
